@@ -478,3 +478,16 @@ def np_argmax(ex, e, st):
     for p_ in range(n - 2, -1, -1):
         out = z3.If(z3.And(*[v.at(p_) >= v.at(q_) for q_ in range(p_ + 1, n)]), iv(p_), out)
     return out
+
+
+@lib("union1d")
+def np_union1d(ex, e, st):
+    """numpy.union1d(a, b): some 1-D integer array (only its length >= 0 is used here; the content is not modelled)."""
+    for a_ in e.args:
+        ex.ev(a_, st)
+    if len(e.args) != 2 or e.keywords:
+        raise U("union1d() with these arguments")
+    ex.trusted_used.add("numpy.union1d(a, b): a 1-D array (only len(..) >= 0 is used)")
+    out = fresh_seq("union", "nd", "int", dtype="int")
+    st.assume(out.n >= 0)
+    return out
